@@ -1163,6 +1163,17 @@ impl<'a> Exec<'a> {
 
     /// Drop everything in the default order and run the end-of-history audits.
     pub fn finish(mut self) -> BTreeSet<String> {
+        // From here on a kernel thread (SQPOLL) is prompt: it consumes at
+        // every enter, and is awake.
+        {
+            let mut s = sim::sim();
+            if let Some(idx) = s.ring_index(self.world.ring_fd) {
+                if s.rings[idx].is_sqpoll() {
+                    s.sqpoll_wake(idx);
+                    s.rings[idx].sqpoll_auto = true;
+                }
+            }
+        }
         // Drop remaining futures.
         for i in 0..self.ops.len() {
             if self.ops[i].fut.is_some() {
